@@ -323,6 +323,16 @@ class Body:
                 f = t['func']
                 yield i, t, f.get('fn')
 
+    def closures_built(self):
+        """def paths of the closures this body constructs (`|| ..` expressions written in it)"""
+        out = []
+        for b in self.blocks:
+            for s_ in b['stmts']:
+                r = s_.get('r') if isinstance(s_, dict) and s_.get('k') == 'assign' else None
+                if isinstance(r, dict) and r.get('k') == 'agg' and r.get('ak') == 'closure' and r.get('def') not in out:
+                    out.append(r['def'])
+        return out
+
     def where(self, bb, stmt=None):
         b = self.blocks[bb]
         sp = b['tspan'] if stmt is None else b['stmts'][stmt].get('span', b['tspan'])
